@@ -10,6 +10,7 @@ generation exceeds the per-case time budget are recorded as skipped (never as vi
 import os
 import sys
 import json
+import zlib
 import signal
 import time
 import multiprocessing as mp
@@ -149,8 +150,11 @@ def run_job(job):
                 signal.alarm(0)
                 events.append(ev)
                 continue
-            ev = K.op_event(eid, op, args, params, extra=job.get('extra'),
+            # the public spelling of the operator varies from case to case (deterministically): infix / method / algebra level
+            sp = ('infix', 'infix', 'method', 'algebra')[zlib.crc32(f"{eid}|{op}".encode()) % 4]
+            ev = K.op_event(eid, op, args, params, extra=job.get('extra'), fn=(lambda *a_, sp=sp: K.apply_op_spelled(op, a_, params, sp)),
                             witness=(lambda raised: _witness(K, u, alg, op, args, raised)) if job.get('witness') else None)
+            ev['spelling'] = sp
             signal.alarm(0)
             events.append(ev)
         except _Timeout:
